@@ -3,7 +3,7 @@
 (*   crates/fuel-core/src/database.rs : commit_changes_with_height_update, RegularStage::height, *)
 (*                                      Database::new (reopen), rollback_last_block            *)
 (*   crates/fuel-core/src/database/metadata.rs : MetadataTable (persisted latest height)       *)
-(* One action per public call.  `cached`, `meta`, `pay`, `hist` transcribe what the code keeps; *)
+(* One action per public call (Commit also in the forms the storage backend rejects).  `cached`, `meta`, `pay`, `hist` transcribe what the code keeps; *)
 (* `glast`/`gn`/`bad` are the ghosts the property talks about.                             *)
 EXTENDS Integers, Sequences, TLC
 
@@ -41,15 +41,30 @@ Flip(p) == IF p = 1 THEN 0 ELSE 1
 \* heights the database can see in the change set
 Seen(k, S) == IF k = "relayer" THEN <<>> ELSE S
 
+\* A commit may additionally be built so that the STORAGE BACKEND rejects the batch after the height checks
+\* passed (ConflictingChanges: nothing is written):
+\*   "meta": the change set itself writes the metadata entry, which collides with the metadata update that
+\*           commit_changes_with_height_update appends as a second change set (Modifiable::commit_changes);
+\*   "list": a ChangesList of two change sets writing the same key, through the commit path that takes a list
+\*           (ImporterDatabase::commit_changes of the on-chain database).
+\* Both need a height the database can see (otherwise no metadata update is appended / the harness would
+\* store a bogus metadata entry), "list" needs the on-chain kind.
+ConflictKinds(k, S) ==
+  {"none"} \cup (IF Len(Seen(k, S)) >= 1
+                 THEN {"meta"} \cup (IF k = "onchain" THEN {"list"} ELSE {})
+                 ELSE {})
+
 (* ---- transcription of commit_changes_with_height_update: the result -------------------------*)
-CommitRes(k, c, S) ==
-  LET E == Seen(k, S) IN
+\* the height checks come first; only then the batch goes to the backend, which finds the conflict
+CommitRes(k, c, S, cf) ==
+  LET E == Seen(k, S)
+      backend_res == IF cf = "none" THEN "Ok" ELSE "Err:Conflict" IN
   IF Len(E) > 1 THEN "Err:MultipleHeightsInCommit"
   ELSE LET nh == IF Len(E) = 1 THEN E[1] ELSE -1 IN
-       IF c = -1 THEN "Ok"                                   \* (None,None) and (None,Some)
+       IF c = -1 THEN backend_res                             \* (None,None) and (None,Some)
        ELSE IF nh = -1 THEN "Err:NewHeightIsNotSet"           \* (Some,None)
        ELSE IF c + 1 # nh THEN "Err:HeightsAreNotLinked"      \* (Some,Some)
-       ELSE "Ok"
+       ELSE backend_res
 NewHeight(k, S) == IF Len(Seen(k, S)) = 1 THEN Seen(k, S)[1] ELSE -1
 
 Init ==
@@ -93,9 +108,10 @@ New(k, b) ==
   /\ UNCHANGED <<cached, meta, pay, hist, glast, gn, bad>>
   /\ act' = [name |-> "New", kind |-> k, backend |-> b]
 
-Commit(S) ==
+Commit(S, cf) ==
   /\ kind # "none"
-  /\ LET res == CommitRes(kind, cached, S)
+  /\ cf \in ConflictKinds(kind, S)
+  /\ LET res == CommitRes(kind, cached, S, cf)
          nh  == NewHeight(kind, S) IN
      /\ IF res = "Ok"
         THEN /\ pay' = Flip(pay)
@@ -105,7 +121,7 @@ Commit(S) ==
         ELSE UNCHANGED <<cached, meta, pay>>
      /\ HistCommit(S, res)
      /\ GhostCommit(S, res)
-     /\ act' = [name |-> "Commit", S |-> S, res |-> res]
+     /\ act' = [name |-> "Commit", S |-> S, cf |-> cf, res |-> res]
   /\ UNCHANGED <<kind, backend>>
 
 \* drop the Database object and build a new one over the same storage (Database::new /
@@ -141,7 +157,7 @@ Rollback ==
 
 Next ==
   \/ \E k \in Kinds, b \in Backends : New(k, b)
-  \/ \E S \in CarriedLists(kind) : Commit(S)
+  \/ \E S \in CarriedLists(kind) : \E cf \in ConflictKinds(kind, S) : Commit(S, cf)
   \/ Reopen
   \/ Rollback
 
@@ -153,7 +169,8 @@ Spec == Init /\ [][Next]_<<vars, act>>
 ReportedExact == kind # "none" => cached = glast
 \* no accepted commit broke a linking rule
 CommitsLinked == bad = ""
-\* a rejected commit changes nothing (neither heights nor data)
+\* a rejected commit changes nothing (neither heights nor data) - whether the height checks or the
+\* storage backend rejected it
 RejectedChangesNothing ==
   [][(act'.name = "Commit" /\ act'.res # "Ok") => (cached' = cached /\ meta' = meta /\ pay' = pay)]_<<vars, act>>
 
